@@ -212,6 +212,9 @@ func (c *curve) encodePoint(x, y *mod.Int) []byte {
 // hence Diffie-Hellman exchange can be done without subgroup checking
 // without exposing more than the least-significant bits of the scalar.
 func (c *curve) decodePoint(bb []byte, x, y *mod.Int) error {
+	if len(bb) != c.PointLen() {
+		return errors.New("invalid elliptic curve point: wrong encoding length")
+	}
 
 	// Convert from little-endian
 	b := make([]byte, len(bb))
@@ -222,8 +225,10 @@ func (c *curve) decodePoint(bb []byte, x, y *mod.Int) error {
 	b[0] &^= 0x80
 
 	// Extract the y-coordinate
+	// (reduced, so that the stored coordinate is a field element even
+	// when the encoding carries a non-canonical y >= P)
 	y.M = c.P.ToCompatibleMod()
-	y.V.SetBytes(b)
+	y.V.SetBytesMod(b, y.M)
 
 	// Compute the corresponding x-coordinate
 	if !c.solveForX(x, y) {
